@@ -17,6 +17,7 @@ mod singular;
 mod solver;
 mod stack;
 mod util;
+mod yaml;
 
 fn main() {
     let args: Vec<String> = std::env::args().collect();
@@ -42,6 +43,7 @@ fn main() {
         ("record", "collision") => collide::record_geometry(&args[3]),
         ("record", "offsets") => collide::record_offsets(&args[3]),
         ("record", "shape") => shape::record(&args[3]),
+        ("replay", "yaml") => yaml::replay(&args[3], &args[4]),
         ("record", "ik") => solver::record(&args[3], &args[4]),
         ("record", "follow") => solver::record_follow(&args[3]),
         _ => {
